@@ -485,18 +485,28 @@ func c06pause(c *an.Ctx) {
 			}
 		})
 		goodSel := len(upEdges) > 0
-		for _, uc := range an.CallsTo(fn, unpause) {
-			q := &an.PathQ{Fn: fn, StartEntry: true, Sink: func(in ssa.Instruction, _ *an.PathState) bool { return in == uc.(ssa.Instruction) },
-				CutEdge: func(e an.Edge, _ *an.PathState) bool { return an.EdgeIn(e, upEdges) }}
-			if _, f := q.Find(); f {
-				goodSel = false
+		// the callee is judged on the path, so that a method value selected by the same test counts as the call it makes
+		callsOnPath := func(target *ssa.Function) func(in ssa.Instruction, st *an.PathState) bool {
+			return func(in ssa.Instruction, st *an.PathState) bool {
+				ci, ok := in.(*ssa.Call)
+				if !ok {
+					return false
+				}
+				g := calleeOnPath(ci, st)
+				return g != nil && (g == target || g.Origin() == target)
 			}
 		}
-		for _, pc := range an.CallsTo(fn, pause) {
-			q := &an.PathQ{Fn: fn, StartEdges: upEdges, Sink: func(in ssa.Instruction, _ *an.PathState) bool { return in == pc.(ssa.Instruction) }}
-			if _, f := q.Find(); f {
-				goodSel = false
-			}
+		if len(an.CallsTo(fn, unpause)) == 0 || len(an.CallsTo(fn, pause)) == 0 {
+			goodSel = false
+		}
+		qu := &an.PathQ{Fn: fn, StartEntry: true, AllAlias: true, Sink: callsOnPath(unpause),
+			CutEdge: func(e an.Edge, _ *an.PathState) bool { return an.EdgeIn(e, upEdges) }}
+		if _, f := qu.Find(); f {
+			goodSel = false
+		}
+		qp := &an.PathQ{Fn: fn, StartEdges: upEdges, AllAlias: true, Sink: callsOnPath(pause)}
+		if _, f := qp.Find(); f {
+			goodSel = false
 		}
 		c.Check(goodSel, fn, "unpause iff the path says so", fn.Pos(), "", "Pause/UnPause are not selected by the request path containing \"unpause\"")
 	}
